@@ -250,6 +250,165 @@ impl WindowAccumulator for VecAcc {
 }
 
 // ------------------------------------------------------------------------------------------
+// join scripts (third batch; used by ops_join_hash.rs / ops_join_sm.rs, no kind of this file)
+// ------------------------------------------------------------------------------------------
+
+pub(crate) type JoinIn = crate::operator::start::BinaryElement<(u64, u64), (u64, u64)>;
+pub(crate) type JoinOut = (u64, (Option<(u64, u64)>, Option<(u64, u64)>));
+
+pub(crate) struct ParsedJoin {
+    /// 0 = JoinLocalHash, 1 = JoinLocalSortMerge
+    pub(crate) algo: i128,
+    /// 0 = Inner, 1 = Left, 2 = Outer
+    pub(crate) variant: i128,
+    pub(crate) script: Vec<StreamElement<JoinIn>>,
+}
+
+impl ParsedJoin {
+    /// (#Left items + 1) * (#Right items + 1) of the whole script: upper bound of the tuples a
+    /// join may emit on it, added to the call budget.
+    pub(crate) fn max_tuples(&self) -> usize {
+        use crate::operator::start::BinaryElement;
+        let l = self
+            .script
+            .iter()
+            .filter(|e| matches!(e, StreamElement::Item(BinaryElement::Left(_))))
+            .count();
+        let r = self
+            .script
+            .iter()
+            .filter(|e| matches!(e, StreamElement::Item(BinaryElement::Right(_))))
+            .count();
+        (l + 1) * (r + 1)
+    }
+}
+
+/// `[2, algo, variant, element*]` with the join element tags
+/// `10 key id` Left, `11 key id` Right, `12` LeftEnd, `13` RightEnd, `3`/`4`/`5` as usual and
+/// `2 ts` Watermark (the join operators panic on it). The tags 0 and 1 have no meaning here.
+pub(crate) fn parse_join(args: &[i128]) -> Result<ParsedJoin, String> {
+    use crate::operator::start::BinaryElement;
+    if args.is_empty() {
+        return Err("BADARGS empty".into());
+    }
+    if args[0] != 2 {
+        return Err(format!("BADARGS nparams={} expected=2", args[0]));
+    }
+    if args.len() < 3 {
+        return Err("BADARGS truncated params".into());
+    }
+    let (algo, variant) = (args[1], args[2]);
+    if !(0..=1).contains(&algo) {
+        return Err(format!("BADARGS join algo {}", algo));
+    }
+    if !(0..=2).contains(&variant) {
+        return Err(format!("BADARGS join variant {}", variant));
+    }
+    let mut script = Vec::new();
+    let mut i = 3;
+    let need = |i: usize, n: usize| -> Result<(), String> {
+        if i + n <= args.len() {
+            Ok(())
+        } else {
+            Err(format!("BADARGS truncated element at {}", i))
+        }
+    };
+    while i < args.len() {
+        match args[i] {
+            10 => {
+                need(i, 3)?;
+                script.push(StreamElement::Item(BinaryElement::Left((
+                    args[i + 1] as u64,
+                    args[i + 2] as u64,
+                ))));
+                i += 3;
+            }
+            11 => {
+                need(i, 3)?;
+                script.push(StreamElement::Item(BinaryElement::Right((
+                    args[i + 1] as u64,
+                    args[i + 2] as u64,
+                ))));
+                i += 3;
+            }
+            12 => {
+                script.push(StreamElement::Item(BinaryElement::LeftEnd));
+                i += 1;
+            }
+            13 => {
+                script.push(StreamElement::Item(BinaryElement::RightEnd));
+                i += 1;
+            }
+            2 => {
+                need(i, 2)?;
+                script.push(StreamElement::Watermark(args[i + 1] as i64));
+                i += 2;
+            }
+            3 => {
+                script.push(StreamElement::FlushBatch);
+                i += 1;
+            }
+            4 => {
+                script.push(StreamElement::Terminate);
+                i += 1;
+            }
+            5 => {
+                script.push(StreamElement::FlushAndRestart);
+                i += 1;
+            }
+            t => return Err(format!("BADARGS element tag {} at {}", t, i)),
+        }
+    }
+    Ok(ParsedJoin {
+        algo,
+        variant,
+        script,
+    })
+}
+
+/// `J(key;lid;rid)` with `-` for a missing side.
+pub(crate) fn fmt_join_el(el: &StreamElement<JoinOut>) -> String {
+    fn tuple(v: &JoinOut) -> String {
+        let side = |s: &Option<(u64, u64)>| match s {
+            Some((_, id)) => id.to_string(),
+            None => "-".to_string(),
+        };
+        format!("J({};{};{})", v.0, side(&(v.1).0), side(&(v.1).1))
+    }
+    match el {
+        StreamElement::Item(v) => tuple(v),
+        StreamElement::Timestamped(v, ts) => format!("{}@{}", tuple(v), ts),
+        StreamElement::Watermark(ts) => format!("W({})", ts),
+        StreamElement::FlushBatch => "B".into(),
+        StreamElement::FlushAndRestart => "F".into(),
+        StreamElement::Terminate => "E".into(),
+    }
+}
+
+/// Same as `drive` for the join operators (their output has its own token format). `extra` is
+/// added to the usual call budget: a join legitimately emits up to #left * #right tuples.
+pub(crate) fn drive_join<Op>(mut op: Op, script_len: usize, extra: usize) -> String
+where
+    Op: Operator<Out = JoinOut>,
+{
+    let mut out = Vec::new();
+    let budget = 8 * script_len + 8 + extra;
+    let mut ended = false;
+    for _ in 0..budget {
+        let el = op.next();
+        out.push(fmt_join_el(&el));
+        if matches!(el, StreamElement::Terminate) {
+            ended = true;
+            break;
+        }
+    }
+    if !ended {
+        out.push("OVERRUN".into());
+    }
+    out.join(" ")
+}
+
+// ------------------------------------------------------------------------------------------
 // entry point
 // ------------------------------------------------------------------------------------------
 
